@@ -11,7 +11,7 @@ PID = "C13"
 
 def gen(rng, tier, ds):
     reqs = []
-    nb = 150 if tier == "quick" else 1500
+    nb = 150 if tier == "quick" else 8000
     for i in range(nb):
         k = rng.choice([0, 1, 1, 2, 3, 5, 8, 12])
         qs = []
@@ -94,7 +94,7 @@ def grpc_sql(rep, scratch, rng, ds, addr, tier):
     lines_g.append("SQLOPEN hg grpc://%s -" % addr)
     lines_m.append("SQLOPEN hg %s -" % ds.did)
     stmts = []
-    for i in range(25 if tier == "quick" else 200):
+    for i in range(25 if tier == "quick" else 600):
         txt, t, gb = sqlcommon.query_text(rng, ds)
         m = sqlcommon.max_ph(t)
         args = [rng.choice([a for a in sqlcommon.ARG_POOL if a[0] == "I" or all(x < 128 for x in a[1])]) for _ in range(m - rng.choice([0, 0, 0, 1 if m else 0]))]   # exact or too few: grpcConn has no direct query path, so database/sql itself rejects surplus arguments there
